@@ -17,6 +17,8 @@ from common import log
 PID = "C06"
 from c06_hostile import HOSTILE  # noqa: E402
 import c06_extreme  # noqa: E402
+import c06_receivers  # noqa: E402
+import c06_protocol  # noqa: E402
 
 
 def work(n):
@@ -198,7 +200,7 @@ def run(chk):
                            "what": "a callback that mutates the object its calling native is working on took the host down "
                                    "(panic or process death) instead of producing a value or a catchable exception"})
     # stream X: conversion-edge arguments in every size/index/count position; the host must survive
-    xprogs = [("X:" + k, "path=/m.ts steps=20000000", src) for k, src in c06_extreme.programs()]
+    xprogs = [("X:" + k, "path=/m.ts steps=200000000", src) for k, src in c06_extreme.programs(chk.tier)]
     xres = common.run_programs(chk.th, xprogs, tag="c06x", timeout=900, per_program_timeout=120, mem_limit=6_000_000_000)
     stats["extreme"] = 0
     for name, _, src in xprogs:
@@ -210,6 +212,32 @@ def run(chk):
                            "observed": {x: v.get(x) for x in ("status", "class", "message", "exit")},
                            "what": "an argument at the edge of a numeric conversion (infinity, NaN, 2**31, 2**53, 1e21) took the host "
                                    "down (arithmetic overflow or capacity panic) instead of producing a value or a catchable exception"})
+    # stream W: every built-in function applied to receivers and arguments of the wrong kind
+    wprogs = [("W:" + k, "path=/m.ts steps=50000000", src) for k, src in c06_receivers.programs()]
+    wres = common.run_programs(chk.th, wprogs, tag="c06w", timeout=1800, per_program_timeout=120, mem_limit=6_000_000_000)
+    stats["receivers"] = 0
+    for name, _, src in wprogs:
+        v = wres.get(name, {})
+        stats["programs"] += 1
+        stats["receivers"] += 1
+        if v.get("status") not in ("complete", "error", "steplimit"):
+            chk.violation({"probe": name[2:], "program": src,
+                           "observed": {x: v.get(x) for x in ("status", "class", "message", "exit")},
+                           "what": "a built-in applied to a receiver or argument of the wrong kind took the host down instead of "
+                                   "producing a value or a catchable exception"})
+    # stream Q: protocol abuse (JSON hooks, generator / iterator / thenable protocols, descriptors, classes, proxies)
+    qprogs = [("Q:" + k, "path=/m.ts steps=50000000", src) for k, src in c06_protocol.programs()]
+    qres = common.run_programs(chk.th, qprogs, tag="c06q", timeout=1800, per_program_timeout=300, mem_limit=6_000_000_000)
+    stats["protocol"] = 0
+    for name, _, src in qprogs:
+        v = qres.get(name, {})
+        stats["programs"] += 1
+        stats["protocol"] += 1
+        if v.get("status") not in ("complete", "error", "steplimit"):
+            chk.violation({"probe": name[2:], "program": src,
+                           "observed": {x: v.get(x) for x in ("status", "class", "message", "exit")},
+                           "what": "a program abusing an iteration / promise / JSON / proxy protocol took the host down or ran inside one "
+                                   "native call until the worker was killed (the step budget could not interrupt it)"})
     # what the model only locates: process deaths through re-entry and unchecked allocation sizes
     dprogs = [("D:" + k, "path=/m.ts steps=200000000", src) for k, src in DEATH.items()]
     dres = common.run_programs(chk.th, dprogs, tag="c06c", timeout=900, per_program_timeout=300, mem_limit=6_000_000_000)
@@ -246,6 +274,8 @@ def run(chk):
                     len(paths(1)[0]), len(paths(1)[1]), list(sizes)),
         "hostile_callback_programs": stats.get("hostile", 0),
         "extreme_argument_programs": stats.get("extreme", 0),
+        "wrong_receiver_programs": stats.get("receivers", 0),
+        "protocol_abuse_programs": stats.get("protocol", 0),
         "trampolined_paths_checked": stats["trampolined_checked"], "reentering_paths_checked": stats["reentering_checked"],
         "worker_deaths_observed": deaths,
     })
